@@ -1,11 +1,13 @@
 import ComposeVerif.Lemmas.SecretsRender
 /-!
-# C20 — the unrestricted `render_default_clean` is false on the unchanged tree
+# C20 — `render_default_clean` was false before the `fix:` of `leak:config:empty-variable-name`
 
 Witness: a config declared with `environment: ""` while the environment has a variable with the empty
-name.  `resolveConfigsEnvironment` copies the value into `content`; `ConfigObjConfig.MarshalYAML/JSON` blank
-`Content` only `if s.Environment != ""`, so the value is rendered.  Replayed on the real code by
-`corpus/C20/config-empty-variable-name.json` (oracle key `leak:config:empty-variable-name`).
+name (a `.env` line `=value` defines one).  Before the fix `resolveConfigsEnvironment` copied the value into
+`content`; `ConfigObjConfig.MarshalYAML/JSON` blank `Content` only `if s.Environment != ""`, so the value was
+rendered.  The fix makes both resolvers skip an empty variable name.  `resolveObjPre` below is the pre-fix
+resolver; the current model on the same witness is clean.  The input is kept in
+`corpus/C20/config-empty-variable-name.json` (it now passes; oracle key `leak:config:empty-variable-name`).
 -/
 namespace CV.Secrets.Neg
 open CV CV.Val CV.Secrets
@@ -17,8 +19,8 @@ def decAllStr (P : String → Prop) [DecidablePred P] : (v : Val) → Decidable 
   | .seq xs => by simp only [AllStr]; exact decAllStrL P xs
   | .map kvs => by simp only [AllStr]; exact decAllStrKV P kvs
   | .null => .isTrue (by simp [AllStr])
-  | .bool _ => .isTrue (by simp [AllStr])
-  | .int _ => .isTrue (by simp [AllStr])
+  | .bool b => by simp only [AllStr]; infer_instance
+  | .int i => by simp only [AllStr]; infer_instance
 def decAllStrL (P : String → Prop) [DecidablePred P] : (xs : List Val) → Decidable (AllStrL P xs)
   | [] => .isTrue (by simp [AllStrL])
   | x :: xs => by
@@ -36,6 +38,57 @@ instance (c : List Char) (v : Val) : Decidable (Clean c v) := by unfold Clean; i
 
 def canary : List Char := "CANARY".toList
 
+/-! ### the pre-fix pipeline -/
+
+/-- `resolve*Environment` before the fix: no test of the variable name -/
+def resolveObjPre (carrier : String) (env : Env) : Val → Val
+  | .map kvs =>
+    match lookup "environment" kvs with
+    | some (.str e) =>
+      match env.lookup e with
+      | some found => .map (insert carrier (.str found) kvs)
+      | none => .map kvs
+    | _ => .map kvs
+  | v => v
+
+def resolveObjsPre (carrier : String) (env : Env) : KVs → KVs
+  | [] => []
+  | (n, cfg) :: r => (n, resolveObjPre carrier env cfg) :: resolveObjsPre carrier env r
+
+def loadSectionPre (isSecret : Bool) (env : Env) (pname : String) (dict : KVs) : Out (List (String × FileObj)) :=
+  match lookup (if isSecret then "secrets" else "configs") dict with
+  | none => .ok []
+  | some (.map objs) =>
+    (setNameObjs pname (resolveObjsPre (if isSecret then xValue else "content") env objs)).bind fun objs2 =>
+      decodeObjs (if isSecret then decodeSecret else decodeConfig)
+        (pxKVs [if isSecret then "secrets" else "configs"] true objs2)
+  | some _ => .err "setNameFromKey"
+
+def loadPre (env : Env) (pname : String) (dict : KVs) : Out Proj :=
+  (loadSectionPre true env pname dict).bind fun ss =>
+  (loadSectionPre false env pname dict).bind fun cs =>
+  .ok { secrets := ss, configs := cs }
+
+/-- the two resolvers differ only on the empty name -/
+theorem resolveObjPre_eq (c : String) (env : Env) (v : Val)
+    (h : ∀ kvs, v = .map kvs → lookup "environment" kvs ≠ some (.str "")) : resolveObjPre c env v = resolveObj c env v := by
+  cases v with
+  | map kvs =>
+    have hk := h kvs rfl
+    simp only [resolveObjPre, resolveObj]
+    cases hl : lookup "environment" kvs with
+    | none => rfl
+    | some x =>
+      cases x with
+      | str e =>
+        have : e ≠ "" := fun h0 => hk (h0 ▸ hl)
+        simp only [if_neg this]
+        cases List.lookup e env <;> rfl
+      | _ => rfl
+  | _ => rfl
+
+/-! ### the witness -/
+
 /-- the raw model: one service, one config whose source variable is the empty name -/
 def wDict : KVs :=
   [("services", .map [("app", .map [("image", .str "img")])]),
@@ -46,12 +99,11 @@ def wEnv : Env := [("", "CANARY")]
 
 def wProj : Proj := { secrets := [], configs := [("c1", { name := "proj_c1", content := "CANARY" })] }
 
-theorem w_loads : load wEnv "proj" wDict = .ok wProj := by rfl
-
+theorem w_loads_prefix : loadPre wEnv "proj" wDict = .ok wProj := by rfl
 
 theorem w_model_clean : Clean canary (.map wDict) := by decide
 
-theorem w_vocab : VocabOk (fun s => ¬ occurs canary s) := ⟨by decide, by decide⟩
+theorem w_vocab : VocabOk (fun s => ¬ occurs canary s) := ⟨by decide, by decide, cutClosed_not_occurs _⟩
 
 theorem w_names_secrets : GenNamesOk (fun s => ¬ occurs canary s) "proj" "secrets" wDict := by
   intro objs h; simp [wDict, lookup] at h
@@ -63,25 +115,29 @@ theorem w_names_configs : GenNamesOk (fun s => ¬ occurs canary s) "proj" "confi
   subst h
   decide
 
-/-- the canary — the value of the source variable, which occurs nowhere in the model — is rendered -/
+/-- the canary — the value of the source variable, which occurs nowhere in the model — was rendered -/
 theorem w_leaks_yaml : ¬ Clean canary (render .yaml false wProj) := by decide
 theorem w_leaks_json : ¬ Clean canary (render .json false wProj) := by decide
 
-/-- **negation of the full-strength `render_default_clean`** (the statement of `render_default_clean_partial`
-without `NoEmptySource`) -/
-theorem render_default_clean_fails :
+/-- **negation of `render_default_clean` for the pre-fix pipeline** -/
+theorem render_default_clean_fails_prefix :
     ¬ (∀ (c : List Char), VocabOk (fun s => ¬ occurs c s) →
         ∀ (env : Env) (pname : String) (dict : KVs), Clean c (.map dict) →
           GenNamesOk (fun s => ¬ occurs c s) pname "secrets" dict → GenNamesOk (fun s => ¬ occurs c s) pname "configs" dict →
-          ∀ (p : Proj), load env pname dict = .ok p → ∀ r, Clean c (render r false p)) :=
-  fun H => w_leaks_yaml (H canary w_vocab wEnv "proj" wDict w_model_clean w_names_secrets w_names_configs wProj w_loads .yaml)
+          ∀ (p : Proj), loadPre env pname dict = .ok p → ∀ r, Clean c (render r false p)) :=
+  fun H => w_leaks_yaml (H canary w_vocab wEnv "proj" wDict w_model_clean w_names_secrets w_names_configs wProj w_loads_prefix .yaml)
 
-/-- the hypothesis the provable statement adds is exactly what the witness violates -/
+/-- the witness is exactly a model that names the empty variable -/
 theorem w_violates_NoEmptySource : ¬ NoEmptySource wDict := by
   intro h
   exact h [("c1", .map [("environment", .str "")])] rfl ("c1", .map [("environment", .str "")]) (by simp) _ rfl rfl
 
-/-- the same witness with a named variable does not leak (the defect is specific to the empty name) -/
+/-- after the fix the same model loads without the value and renders cleanly -/
+theorem w_loads_fixed : load wEnv "proj" wDict = .ok { secrets := [], configs := [("c1", { name := "proj_c1" })] } := by rfl
+theorem w_clean_fixed : Clean canary (render .yaml false { secrets := [], configs := [("c1", { name := "proj_c1" })] }) ∧
+    Clean canary (render .json false { secrets := [], configs := [("c1", { name := "proj_c1" })] }) := by decide
+
+/-- a named variable never leaked, before or after -/
 example : load [("V", "CANARY")] "proj" [("configs", .map [("c1", .map [("environment", .str "V")])])] =
     .ok { secrets := [], configs := [("c1", { name := "proj_c1", environment := "V", content := "CANARY" })] } := by rfl
 example : Clean canary (render .yaml false { secrets := [], configs := [("c1", { name := "proj_c1", environment := "V", content := "CANARY" })] }) := by decide
